@@ -10,6 +10,7 @@ package c13
 
 import (
 	"bytes"
+	"context"
 	"fmt"
 	"math"
 	"os"
@@ -739,12 +740,17 @@ func TestEncryptedKeyset(t *testing.T) {
 		kek := drawKEK(rt)
 		format := rapid.SampledFrom([]string{"binary", "json", "mem"}).Draw(rt, "format")
 		withAD := rapid.Bool().Draw(rt, "with_ad_api")
+		// the third API pair: WriteWithContext / ReadWithContext (always takes associated data)
+		ctxAPI := rapid.Bool().Draw(rt, "with_context_api")
+		if ctxAPI {
+			withAD = true
+		}
 		var ad []byte
 		if withAD {
 			ad = gen.BytesOrNil(rt, "ad", 64)
 		}
 		desc := func() string {
-			return fmt.Sprintf("%v\nKEK %s\nformat=%s api_with_ad=%v ad=%s (nil=%v)", c, kek.info.Desc, format, withAD, gen.Hex(ad), ad == nil)
+			return fmt.Sprintf("%v\nKEK %s\nformat=%s api_with_ad=%v api_with_context=%v ad=%s (nil=%v)", c, kek.info.Desc, format, withAD, ctxAPI, gen.Hex(ad), ad == nil)
 		}
 		sc := newScanner(c.secrets, c.typeURLs())
 		wantInfo := c.expectedInfo()
@@ -766,7 +772,9 @@ func TestEncryptedKeyset(t *testing.T) {
 			w = mem
 		}
 		var err error
-		if withAD {
+		if ctxAPI {
+			err = c.h.WriteWithContext(context.Background(), w, tk.CtxAEAD(kek.right), ad)
+		} else if withAD {
 			err = c.h.WriteWithAssociatedData(w, kek.right, ad)
 		} else {
 			err = c.h.Write(w, kek.right)
@@ -839,6 +847,9 @@ func TestEncryptedKeyset(t *testing.T) {
 
 		// --- readers
 		read := func(k tink.AEAD, a []byte, useADAPI bool) (*keyset.Handle, error) {
+			if useADAPI && ctxAPI {
+				return keyset.ReadWithContext(context.Background(), reader(), tk.CtxAEAD(k), a)
+			}
 			if useADAPI {
 				return keyset.ReadWithAssociatedData(reader(), k, a)
 			}
